@@ -283,3 +283,43 @@ package ipa
 //@ ensures result == (len(ip.L) == 8 && len(ip.R) == 8 && len(other.L) == 8 && len(other.R) == 8 && (forall k int :: 0 <= k && k < 8 ==> EQP(ip.L[k], other.L[k]) && EQP(ip.R[k], other.R[k])) && ip.A_scalar == other.A_scalar)
 //@ loop 0 invariant 0 <= i && i <= 8 && len(ip.L) == 8 && len(ip.R) == 8 && len(other.L) == 8 && len(other.R) == 8
 //@ loop 0 invariant forall k int :: 0 <= k && k < i ==> EQP(ip.L[k], other.L[k]) && EQP(ip.R[k], other.R[k])
+
+// ---- prover side: shape, error clauses and memory safety (no functional contract: see C03 in DESIGN)
+
+//@ func splitPoints
+//@ props C04 C13
+//@ prelude field
+//@ ensures err != nil <==> len(x) % 2 != 0
+//@ ensures err == nil ==> sameslice(result0, x[0:len(x)/2]) && sameslice(result1, x[len(x)/2:len(x)])
+
+//@ func foldPoints
+//@ props C04 C13
+//@ prelude field group vecvalid
+//@ requires validVec(a) && validVec(b)
+//@ ensures err != nil <==> len(a) != len(b)
+//@ ensures err == nil ==> fresh(result0) && len(result0) == len(a) && validVec(result0)
+//@ loop 0 invariant 0 <= i && i <= len(a) && len(a) == len(b) && len(result) == len(a) && fresh(result)
+//@ loop 0 invariant forall k int :: 0 <= k && k < i ==> validP(result[k].inner)
+//@ at loopbody 0: assert@ea vv_elem(row(a), off(a), len(a), i) && vv_elem(row(b), off(b), len(b), i)
+
+// CreateIPAProof: for a well-formed configuration the prover fails exactly when the polynomial does not have 256
+// evaluations; otherwise it returns eight L and eight R points. Every index, slice and nil access is safe, every call
+// precondition holds (valid basis halves and folded bases), the vectors halve from 256 to 1 over the eight rounds, and
+// only the transcript is written (the caller's polynomial and the configuration are not). What the proof *is* (equality
+// with a reference prover) is not under contract: see C03 in DESIGN.
+//@ func CreateIPAProof
+//@ props C04 C13
+//@ prelude field group bytes bytesint bytesbridge curve frint bary ipa ipaspec vecvalid
+//@ requires validTr(transcript) && validPW(ic.PrecomputedWeights) && obj(ic.PrecomputedWeights) >= 1
+//@ requires ic.numRounds == 8 && len(ic.SRS) == 256
+//@ requires validP(commitment.inner) && validP(ic.Q.inner)
+//@ requires validVec(ic.SRS)
+//@ ensures err != nil <==> len(a) != 256
+//@ ensures err == nil ==> len(result0.L) == 8 && len(result0.R) == 8
+//@ modifies *(transcript.buff), hcontent(transcript.state)
+//@ macro LEN(i, n) = ((i == 0 && n == 256) || (i == 1 && n == 128) || (i == 2 && n == 64) || (i == 3 && n == 32) || (i == 4 && n == 16) || (i == 5 && n == 8) || (i == 6 && n == 4) || (i == 7 && n == 2) || (i == 8 && n == 1))
+//@ loop 0 invariant 0 <= i && i <= 8 && num_rounds == 8 && LEN(i, len(a)) && len(b) == len(a) && len(current_basis) == len(a)
+//@ loop 0 invariant (allocated(obj(current_basis)) || sinceloop(current_basis)) && validVec(current_basis) && validTr(transcript) && validP(q.inner) && len(L) == 8 && len(R) == 8 && fresh(L) && fresh(R)
+//@ at call splitPoints 0: assert@halves vv_split(row(current_basis), off(current_basis), len(current_basis), len(current_basis) / 2)
+//@ at call InnerProd 1: assert@right row(G_R) == row(current_basis) && off(G_R) == off(current_basis) + 3 * (len(current_basis) / 2) && len(G_R) == len(current_basis) - len(current_basis) / 2
+//@ at call InnerProd 1: assert@rightvalid validVec(G_L) && validVec(G_R)
